@@ -117,12 +117,12 @@ Qed.
 Definition name (x : string) : expr := EDes (DLast0 (s x)).
 Definition ref1 (x : string) (a : expr) : expr := EDes (DLastA (s x) a).
 Definition num (x : string) : expr := ELit (s x).
-Definition tb0 (scope : labels) : symtab := mk_symtab scope [].
+Definition tb0 (scope : labels) : symtab := mk_symtab scope [] [].
 
 (* formerly region 2: de-duplication on the last component before resolution *)
 Definition w_same_last_tb : symtab :=
   mk_symtab [(s "a", EVar (s "t1") true); (s "b", EVar (s "t2") true)]
-            [(s "t1", [(s "run", EProc (s "m.t1.run"))]); (s "t2", [(s "run", EProc (s "m.t2.run"))])].
+            [(s "t1", [(s "run", EProc (s "m.t1.run"))]); (s "t2", [(s "run", EProc (s "m.t2.run"))])] [].
 Definition w_same_last : list stmt :=
   [SCall None (DPart0 (s "a") (DLastA (s "run") (ELit []))); SCall None (DPart0 (s "b") (DLastA (s "run") (ELit [])))].
 
@@ -147,7 +147,7 @@ Definition w_assoc_expr : list stmt :=
 
 (* region 8: resolving through a function that has not been correlated yet raises *)
 Definition w_crash_tb : symtab :=
-  mk_symtab [(s "mk", EFunc (s "m.mk") (s "t"))] [(s "t", [(s "run", EProc (s "m.t.run"))])].
+  mk_symtab [(s "mk", EFunc (s "m.mk") (s "t"))] [(s "t", [(s "run", EProc (s "m.t.run"))])] [].
 Definition w_crash : list stmt :=
   [SAssoc true [(s "a", ref1 "mk" (num "1"))];
    SCall None (DPart0 (s "a") (DLastA (s "run") (ELit [])));
@@ -217,7 +217,8 @@ Definition ex_tb : symtab :=
              (s "i", EVar (s "integer") true); (s "x", EVar (s "integer") true);
              (s "obj", EVar (s "ty") true); (s "ty", EType (s "ty"))]
             [(s "ty", [(s "items", EVar (s "integer") true); (s "n", EVar (s "integer") true);
-                       (s "run", EProc (s "m.ty.run")); (s "get", EFunc (s "m.ty.get") (s "integer"))])].
+                       (s "run", EProc (s "m.ty.run")); (s "get", EFunc (s "m.ty.get") (s "integer"))])]
+            [(s "ext_fn", s "ext_fn@file")].
 
 Definition ex_unit : list stmt :=
   [ SIfCall None true (EBin (ref1 "f" (name "i")) (s " > ") (num "0")) (DLast0 (s "t"));
@@ -235,8 +236,8 @@ Example exact_example :
     [s "if (f(i) > 0) call t"; s "arr(g(2)) = sums(1) + size(arr)"; s "10 if((x)) x = ext_fn(1, obj%get(i))";
      s "call obj%run"; s "write (*, ""0"") ""1"", obj(i)%n"; s "do while (f(f(x)) < 3)"; s "100 format (i5, 3(f8.2, a))";
      s "end do"] /\
-  recorded ex_tb (map render_stmt ex_unit) = Some [s "m.t"; s "m.f"; s "m.g"; s "ext_fn"; s "m.ty.get"; s "m.ty.run"] /\
-  calls_of ex_tb ex_unit = [s "m.f"; s "m.t"; s "m.g"; s "ext_fn"; s "m.ty.get"; s "m.ty.run"; s "m.f"; s "m.f"].
+  recorded ex_tb (map render_stmt ex_unit) = Some [s "m.t"; s "m.f"; s "m.g"; s "ext_fn@file"; s "m.ty.get"; s "m.ty.run"] /\
+  calls_of ex_tb ex_unit = [s "m.f"; s "m.t"; s "m.g"; s "ext_fn@file"; s "m.ty.get"; s "m.ty.run"; s "m.f"; s "m.f"].
 Proof. repeat match goal with |- _ /\ _ => split end; vm_compute; reflexivity. Qed.
 
 Example raw_example :
@@ -260,7 +261,7 @@ Proof. cbv zeta. repeat match goal with |- _ /\ _ => split end; vm_compute; refl
 Example exact_repaired_example :
   let tb := mk_symtab [(s "f", EFunc (s "m.f") (s "integer")); (s "t", EProc (s "m.t")); (s "i", EVar (s "integer") true);
                        (s "a", EVar (s "t1") true); (s "b", EVar (s "t2") true)]
-                      [(s "t1", [(s "run", EProc (s "m.t1.run"))]); (s "t2", [(s "run", EProc (s "m.t2.run"))])] in
+                      [(s "t1", [(s "run", EProc (s "m.t1.run"))]); (s "t2", [(s "run", EProc (s "m.t2.run"))])] [] in
   let ss := [SCall (Some (s "10")) (DLast0 (s "t"));
              SGoto [s "10"; s "20"] (ref1 "f" (name "i"));
              SFormat (s "100") false (pt_app (pt_str (s "i5, 3")) (PGrp (pt_str (s "f8.2, a")) PNil));
